@@ -13,6 +13,7 @@ import (
 	"github.com/idena-network/idena-go/core/state"
 	"github.com/idena-network/idena-go/crypto"
 	"github.com/idena-network/idena-go/vm/embedded"
+	"github.com/idena-network/idena-go/vm/env"
 	"pgregory.net/rapid"
 
 	"verifharness/internal/sim"
@@ -76,6 +77,10 @@ func (c *contract) methods() []string {
 // opSpec describes one step of a program.
 type opSpec struct {
 	special string // "", "blocks", "time", "fund"
+
+	nonceOffset int  // txs of the same sender that precede this one in the block
+	pinNonce    bool // the payload depends on the tx nonce (a deployment that names its own future address)
+	selfArg     bool // an address argument is the target contract itself
 	n       int
 	dur     time.Duration
 
@@ -104,6 +109,18 @@ type prog struct {
 	contracts []*contract
 	senders   []*sim.Actor
 	last      *contract
+
+	ctxAddrs   []common.Address // addresses with a role in the step being generated: the target contract itself (for a deployment: its future address)
+	selfPicked bool             // an address argument of the step being generated is the target contract itself
+}
+
+// nextNonce is the nonce the actor's next transaction must carry on the main replica's head state.
+func (p *prog) nextNonce(a *sim.Actor) uint32 {
+	s := p.A.ReadState()
+	if s.State.GetEpoch(a.Addr) < s.State.Epoch() {
+		return 1
+	}
+	return s.State.GetNonce(a.Addr) + 1
 }
 
 // rapid's integer draws favour small and boundary values; both helpers scramble the drawn number so that the
@@ -176,8 +193,24 @@ func (p *prog) actorAddr(label string) common.Address {
 	return p.w.Actors[p.draw(label, len(p.w.Actors))].Addr
 }
 
+// destAddr: an actor, or (1 time in 6) the contract the step runs on.
+func (p *prog) destAddr(label string) common.Address {
+	if len(p.ctxAddrs) > 0 && p.chance(label+"Self", 16) {
+		p.selfPicked = true
+		return p.ctxAddrs[0]
+	}
+	return p.actorAddr(label)
+}
+
 func (p *prog) anyAddr(label string) []byte {
-	switch rapid.IntRange(0, 11).Draw(p.t, label+"Class") {
+	switch rapid.IntRange(0, 13).Draw(p.t, label+"Class") {
+	case 12, 13:
+		// the contract the step runs on names ITSELF (self-transfer, lock whose success / fail address is the lock, ...)
+		if len(p.ctxAddrs) > 0 {
+			p.selfPicked = true
+			return p.ctxAddrs[p.draw(label+"Self", len(p.ctxAddrs))].Bytes()
+		}
+		return p.actorAddr(label).Bytes()
 	case 0, 1, 2, 3:
 		return p.actorAddr(label).Bytes()
 	case 4:
@@ -387,13 +420,13 @@ func (p *prog) mkCall(c *contract, sender *sim.Actor, method string, amount *big
 			label = m
 		}
 	}
-	return &opSpec{sender: sender, typ: types.CallContractTx, target: c, payload: payload, amount: amount, kind: c.kind, op: "call", method: label, argClass: argClass, smart: smart}
+	return &opSpec{sender: sender, typ: types.CallContractTx, target: c, payload: payload, amount: amount, kind: c.kind, op: "call", method: label, argClass: argClass, smart: smart, selfArg: p.selfPicked}
 }
 
 func (p *prog) mkTerminate(c *contract, sender *sim.Actor, amount *big.Int, args [][]byte, argClass string, smart bool) *opSpec {
 	att := attachments.CreateTerminateContractAttachment(args...)
 	payload, _ := att.ToBytes()
-	return &opSpec{sender: sender, typ: types.TerminateContractTx, target: c, payload: payload, amount: amount, kind: c.kind, op: "terminate", method: "terminate", argClass: argClass, smart: smart,
+	return &opSpec{sender: sender, typ: types.TerminateContractTx, target: c, payload: payload, amount: amount, kind: c.kind, op: "terminate", method: "terminate", argClass: argClass, smart: smart, selfArg: p.selfPicked,
 		onSuccess: func() { c.dead = true }}
 }
 
@@ -434,6 +467,9 @@ func (p *prog) findKind(kind string) []*contract {
 func (p *prog) deployEmbedded(e *embType) *opSpec {
 	sender := p.anySender("deployer")
 	now := uint64(p.now())
+	// the address the contract will get (hash of deployer, epoch, nonce): lets the deployment name itself
+	p.ctxAddrs = []common.Address{env.ComputeContractAddr(&types.Transaction{Epoch: p.A.ReadState().State.Epoch(), AccountNonce: p.nextNonce(sender)}, sender.Addr)}
+	p.selfPicked = false
 	c := &contract{kind: e.name, emb: e, owner: sender, votes: map[int]*voteHint{}, voters: map[int]bool{}, sent: map[int]msVote{}}
 	var args [][]byte
 	switch e.name {
@@ -487,7 +523,7 @@ func (p *prog) deployEmbedded(e *embType) *opSpec {
 	att := attachments.CreateDeployContractAttachment(e.hash, nil, nil, args...)
 	payload, _ := att.ToBytes()
 	return &opSpec{sender: sender, typ: types.DeployContractTx, payload: payload, amount: p.deployAmount(sender), kind: e.name, op: "deploy", method: "deploy", argClass: cls, smart: cls == "typed", created: c,
-		post: postOwnerIs(sender.Addr)}
+		post: postOwnerIs(sender.Addr), pinNonce: p.selfPicked, selfArg: p.selfPicked}
 }
 
 func (p *prog) deployWasm(b *wasmBin) *opSpec {
@@ -686,7 +722,7 @@ func (p *prog) smartMultisig(c *contract) *opSpec {
 		if haveBest && p.chance("msAgree", 80) {
 			dest, amount = best.dest, best.amount
 		} else {
-			dest = p.actorAddr("msDest")
+			dest = p.destAddr("msDest")
 			amount = p.anyBig("msAmount", p.transferAmounts(c)...)
 		}
 		sender := p.anySender("msSendSender")
@@ -708,7 +744,7 @@ func (p *prog) smartMultisig(c *contract) *opSpec {
 	case 4, 5, 6, 7:
 		dest, amount := best.dest, best.amount
 		if !haveBest || p.chance("msPushOther", 12) {
-			dest = p.actorAddr("msPushDest")
+			dest = p.destAddr("msPushDest")
 			amount = p.anyBig("msPushAmount", p.transferAmounts(c)...)
 		}
 		args, cls := p.mangle([][]byte{dest.Bytes(), amount}, "msPushArgs")
@@ -730,6 +766,7 @@ func voteHash(vote byte, salt []byte) []byte {
 }
 
 func (p *prog) smartVoting(c *contract) *opSpec {
+	p.ctxAddrs = []common.Address{c.addr}
 	st := p.cbyte(c, "state")
 	bal := p.balance(c.addr)
 	height := p.A.Head().Height() + 1
@@ -981,6 +1018,7 @@ func (p *prog) smartWasm(c *contract) *opSpec {
 }
 
 func (p *prog) smartStep(c *contract) *opSpec {
+	p.ctxAddrs = []common.Address{c.addr}
 	switch c.kind {
 	case "TimeLock":
 		return p.smartTimeLock(c)
@@ -998,6 +1036,7 @@ func (p *prog) smartStep(c *contract) *opSpec {
 
 // wildStep: method from the contract's table or a random string, arbitrary argument vector, any sender, any amount.
 func (p *prog) wildStep(c *contract) *opSpec {
+	p.ctxAddrs = []common.Address{c.addr}
 	a := p.anySender("wildSender")
 	if c.emb != nil && p.chance("wildTerminate", 15) {
 		return p.mkTerminate(c, a, p.payAmount("wildTermPay", a), p.wildArgs("wildTermArgs"), "wild", false)
@@ -1054,6 +1093,11 @@ func (p *prog) votingDriver(alive []*contract) *opSpec {
 }
 
 func (p *prog) next() *opSpec {
+	p.selfPicked, p.ctxAddrs = false, nil
+	return p.nextStep()
+}
+
+func (p *prog) nextStep() *opSpec {
 	var alive []*contract
 	for _, c := range p.contracts {
 		if !c.dead {
@@ -1136,10 +1180,7 @@ func (p *prog) build(op *opSpec) (*types.Transaction, string) {
 		fpg = min // the pool prices the minimum fee with the network's minimal gas price (matters on the genesis state, price 0)
 	}
 	tx := &types.Transaction{Type: op.typ, Epoch: s.State.Epoch(), Payload: op.payload, Amount: op.amount}
-	tx.AccountNonce = s.State.GetNonce(op.sender.Addr) + 1
-	if s.State.GetEpoch(op.sender.Addr) < s.State.Epoch() {
-		tx.AccountNonce = 1
-	}
+	tx.AccountNonce = p.nextNonce(op.sender) + uint32(op.nonceOffset)
 	if op.target != nil {
 		a := op.target.addr
 		tx.To = &a
@@ -1166,8 +1207,10 @@ func (p *prog) build(op *opSpec) (*types.Transaction, string) {
 			feeFor(tx, netSize, fpg, ample, nil)
 			if stx, err := types.SignTx(tx, op.sender.Key); err == nil {
 				hdr := &types.Header{ProposedHeader: &types.ProposedHeader{Height: p.A.Head().Height() + 1, Time: p.now(), ParentHash: p.A.Head().Hash()}}
-				if dr, err := dryRun(p.A, stx, hdr, gasLimitOf(netSize, fpg, stx)); err == nil && dr.gasUsed > 0 {
-					need = int64(dr.gasUsed)
+				if cs, err := checkStateAfter(p.A, nil, hdr); err == nil {
+					if dr, err := dryRun(p.A, cs, stx, hdr, gasLimitOf(netSize, fpg, stx)); err == nil && dr.gasUsed > 0 {
+						need = int64(dr.gasUsed)
+					}
 				}
 			}
 		}
